@@ -271,23 +271,36 @@ class FunctionRun:
                 st.env['self.' + k] = const(t, 'self.' + k)
             names = names[1:]
         for p in names:
+            if p in c.fix and p not in c.types:
+                st.env[p] = self.models.lift_constant(self, c.fix[p])     # parameter fixed to a constant (e.g. a default list)
+                continue
             if p not in c.types:
                 raise Unsupported('parameter %s has no declared type' % p)
             st.env[p] = const(parse_type(c.types[p]), p)
         for p, value in c.fix.items():
+            if p not in c.types:
+                continue
             st.assume(ops.equal(st.env[p], lift(value)))
             st.env[p] = lift(value)
         for v in list(st.env.values()):
-            st.assume(*ops.wf_axioms(v))
+            if isinstance(v, Val):
+                st.assume(*ops.wf_axioms(v))
         # heap: every graph reachable from the inputs is older than everything allocated here
         self.entry_next_gid = st.heap.get('next_gid')
         for name, v in st.env.items():
-            if isinstance(v.ty, TGraph):
+            if isinstance(v, Val) and isinstance(v.ty, TGraph):
                 st.assume(v.t >= 0, v.t < self.entry_next_gid)
                 st.assume(*st.heap.wf_graph(v.t))
         if any(isinstance(v.ty, TGraph) for v in st.env.values() if isinstance(v, Val)):
             st.assume(*st.heap.wf_refs())
             st.assume(*self.bonding_invariant(st, st.heap))
+            st.assume(*self.fragid_invariant(st.heap))
+        # graph references held in dict-valued inputs point at graphs that exist on entry
+        for name, v in list(st.env.items()):
+            if isinstance(v, Val) and isinstance(v.ty, TDict) and isinstance(v.ty.val, TGraph):
+                k = z3.Const(fresh_name('dg'), v.ty.key.sort())
+                vv = v.ty.valmap(v.t)[k]
+                st.assume(z3.ForAll([k], z3.Implies(v.ty.has(v.t)[k], z3.And(vv >= 0, vv < st.heap.get('next_gid'))), patterns=[vv]))
         # ghosts
         for g, (ty, init) in c.ghosts.items():
             st.env[g] = ops.coerce(self.spec_expr(init, st, None), parse_type(ty))
@@ -326,6 +339,21 @@ class FunctionRun:
             del self.bound_names[-3:]
         return [z3.ForAll([g, n, j], z3.Implies(z3.And(heap.get('nh:bonding')[g][n], 0 <= j, j < T_LSTR.length(lst)), ok),
                           patterns=[T_LSTR.arr(lst)[j]])]
+
+    def fragid_invariant(self, heap):
+        if 'fragid' not in self.c.heap_invariants:
+            return []
+        from .heap import T_LINT
+        g, n = z3.Int(fresh_name('fg')), z3.Int(fresh_name('fn'))
+        lst = heap.get('nv:fragid#l')[g][n]
+        return [z3.ForAll([g, n], z3.Implies(heap.get('nh:fragid#l')[g][n], T_LINT.length(lst) >= 1), patterns=[T_LINT.length(lst)])]
+
+    def check_fragid_write(self, st, list_term, node):
+        if 'fragid' not in self.c.heap_invariants:
+            return
+        from .heap import T_LINT
+        self.oblige(st, 'type-inv', T_LINT.length(list_term) >= 1, node, 'fragid-nonempty',
+                    detail='a membership list written to a node is never empty')
 
     def check_bonding_write(self, st, list_term, node):
         if 'descriptors' not in self.c.heap_invariants:
@@ -729,6 +757,11 @@ class FunctionRun:
         st.assume(new.get('next_gid') >= old_next)
         st.assume(*new.wf_refs())
         st.assume(*self.bonding_invariant(st, new))
+        st.assume(*self.fragid_invariant(new))
+        # the graphs that may have changed are still well-formed graphs (data-structure invariant of the models)
+        for m, cs in mod_terms:
+            if not callable(m) and (cs is None or cs & {'nodes', 'hasn', 'nidx', 'hase', 'elist', 'eidx'} or any(c.startswith('e') for c in cs)):
+                st.assume(*new.wf_graph(m))
         st.heap = new
 
     def loop_spec(self, s):
